@@ -34,6 +34,8 @@ def instances(tier):
         out.append(dict(id="time-lookup-%s-N%d" % (fam, n), family=fam, N=n, mode="time", dense=False, budget=b))
         out.append(dict(id="slice-%s-N%d" % (fam, n), family=fam, N=n, mode="slice", dense=False, budget=b))
     out.append(dict(id="time-lookup-dense-euler-N2", family="euler", N=2, mode="time", dense=True, budget=b))
+    for mode in ("time", "slice", "index"):
+        out.append(dict(id="%s-after-events-euler-N2" % ("time-lookup" if mode == "time" else mode), family="euler", N=2, mode=mode, dense=False, events=True, budget=b))
     out.append(dict(id="time-lookup-continued-euler-N2", family="euler", N=2, mode="time", dense=False, cont=True, budget=b))
     # the run goes AGAINST the direction of the constructor's (t0, tf) span: integrate(T) with T on the other side of t0
     for mode in ("time", "slice", "index"):
@@ -73,6 +75,18 @@ def scenario(c, inst):
             c.assume(absval(c, Tr - t0) <= inst["N"] * adt)
             c.assume(absval(c, Tr - t0) >= 1.0 / 64)
             st, r = run(a.integrate, Tr, callback=spans.cap_callback(c, cap + 2, kind))
+        elif inst.get("events"):
+            # the run monitored an event function (that never fired): integrate keeps step interpolants for the detector even when
+            # dense output is off - lookups must not depend on such leftovers
+            import desolver.differential_system as ds
+            from .common import patched
+            from .events_common import Ev
+
+            def no_events(sol_tuple, events, consts, direction, is_terminal, attributes):
+                sol_tuple[0](sol_tuple[1] + 0.5 * (sol_tuple[2] - sol_tuple[1]))
+                return np.array([], dtype=np.int64), c.array([]), False, []
+            with patched(ds, "handle_events", no_events):
+                st, r = run(a.integrate, events=[Ev("e0")], callback=spans.cap_callback(c, cap + 2, kind))
         else:
             st, r = run(a.integrate, callback=spans.cap_callback(c, cap + 2, kind))
     if st != "ok":
